@@ -137,7 +137,7 @@ theorem truthful_flags (f f' : Fn) (t : Truth) (hp : f.params = f'.params) (ht :
     f.flags.wantsArgs = f'.flags.wantsArgs ∧ f.flags.isStatic = f'.flags.isStatic ∧ f.flags.isSetter = f'.flags.isSetter := by
   simp only [truthful, Bool.and_eq_true, beq_iff_eq, Fn.wantsArgs, Fn.isStatic, Fn.isSetter, hasVarPos] at ht ht'
   rw [hp] at ht
-  exact ⟨ht.1.1.trans ht'.1.1.symm, ht.1.2.trans ht'.1.2.symm, ht.2.trans ht'.2.symm⟩
+  exact ⟨ht.1.1.1.trans ht'.1.1.1.symm, ht.1.1.2.trans ht'.1.1.2.symm, ht.1.2.trans ht'.1.2.symm⟩
 
 /-- **C04 (body text).** Two functions with the same signature, kind and decoration (same decorator lines) whose flags are
     truthful behave identically, whatever words appear in their bodies, comments or docstrings. -/
